@@ -5,6 +5,7 @@ import ast
 from typing import Dict, List, Optional, Set, Tuple
 
 from ..cfg import CFG
+from . import common
 from ..core import AnalysisError, FuncInfo, call_name, calls_in, const_str, is_self_attr, norm, param_names, walk_local
 
 EXPLANATION = (
@@ -636,7 +637,7 @@ def _shared(ctx, res) -> None:
         by_name.setdefault(f.name, []).append(f)
 
     def effectful(g: FuncInfo) -> bool:
-        ps = set(param_names(g.node)[1:] if g.cls is not None else param_names(g.node))
+        ps = set(g.call_params())
         for x in walk_local(g.node):
             if isinstance(x, (ast.Assign, ast.AugAssign)):
                 for t in (x.targets if isinstance(x, ast.Assign) else [x.target]):
@@ -675,31 +676,39 @@ def _shared(ctx, res) -> None:
 
     # R05.12: whether a rename is the rename of a module is a fact about the OBJECT the name denotes (a from-imported or
     # aliased module is not an ImportedModule pyname), decided against the module base class
-    rm = idx.need_func("rope.refactor.rename.Rename._is_renaming_a_module")
+    # (found by its ROLE: the test under which Rename.get_changes announces the move of the module's file -- whether it is
+    # written in place or in a one-line predicate such as _is_renaming_a_module)
+    rm = idx.need_func("rope.refactor.rename.Rename.get_changes")
+    rm_node = common.inlined(idx, rm)
+    rcfg = CFG(rm_node)
     base = "rope.base.pyobjects.AbstractModule"
     idx.need_class(base)
-    rets = [x for x in walk_local(rm.node) if isinstance(x, ast.Return) and x.value is not None]
-    ok12 = bool(rets)
-    why = "no return value"
-    for r in rets:
-        tests = [y for y in ast.walk(r.value) if isinstance(y, ast.Call) and call_name(y) == "isinstance" and len(y.args) == 2]
-        good = False
-        for t in tests:
-            on_object = any(isinstance(y, ast.Call) and call_name(y) == "get_object" for y in ast.walk(t.args[0]))
-            if not on_object and isinstance(t.args[0], ast.Name):
-                on_object = any(isinstance(x, ast.Assign) and isinstance(x.targets[0], ast.Name) and x.targets[0].id == t.args[0].id
-                                and any(isinstance(y, ast.Call) and call_name(y) == "get_object" for y in ast.walk(x.value)) for x in walk_local(rm.node))
-            ks = t.args[1].elts if isinstance(t.args[1], ast.Tuple) else [t.args[1]]
-            quals = [idx.resolve(rm.unit.modname, k) for k in ks]
-            covers = base in quals or {"rope.base.pyobjects.PyModule", "rope.base.pyobjects.PyPackage"} <= set(quals) or \
-                {"rope.base.pyobjectsdef.PyModule", "rope.base.pyobjectsdef.PyPackage"} <= set(quals)
-            if on_object and covers:
-                good = True
-            elif not on_object:
-                why = f"`{ast.unparse(t)}` tests the kind of the NAME, not the object it denotes"
-            else:
-                why = f"`{ast.unparse(t)}` does not cover every module class"
-        ok12 = ok12 and good
+    movers = [nd for nd in rcfg.nodes if nd.kind == "stmt" and nd.ast is not None and any(
+        call_name(c) in ("_rename_module", "MoveResource") for c in calls_in(nd.ast))]
+    if not movers:
+        raise AnalysisError("anchor=Rename.get_changes: the step that moves the renamed module's file not found")
+    tests = []
+    for nd in movers:
+        for t, pol in rcfg.guards(nd.id):
+            if pol:
+                tests += [y for y in ast.walk(t) if isinstance(y, ast.Call) and call_name(y) == "isinstance" and len(y.args) == 2]
+    ok12 = False
+    why = "the move of the file is not guarded by any isinstance test"
+    for t in tests:
+        on_object = any(isinstance(y, ast.Call) and call_name(y) == "get_object" for y in ast.walk(t.args[0]))
+        if not on_object and isinstance(t.args[0], ast.Name):
+            on_object = any(isinstance(x, ast.Assign) and isinstance(x.targets[0], ast.Name) and x.targets[0].id == t.args[0].id
+                            and any(isinstance(y, ast.Call) and call_name(y) == "get_object" for y in ast.walk(x.value)) for x in walk_local(rm_node))
+        ks = t.args[1].elts if isinstance(t.args[1], ast.Tuple) else [t.args[1]]
+        quals = [idx.resolve(rm.unit.modname, k) for k in ks]
+        covers = base in quals or {"rope.base.pyobjects.PyModule", "rope.base.pyobjects.PyPackage"} <= set(quals) or \
+            {"rope.base.pyobjectsdef.PyModule", "rope.base.pyobjectsdef.PyPackage"} <= set(quals)
+        if on_object and covers:
+            ok12 = True
+        elif not on_object:
+            why = f"`{ast.unparse(t)}` tests the kind of the NAME, not the object it denotes"
+        else:
+            why = f"`{ast.unparse(t)}` does not cover every module class"
     res.add("R05.12", "Rename._is_renaming_a_module|object-not-name", ok12, rm.where,
             "module-ness is decided on get_object() against the module base class" if ok12 else
             f"Rename._is_renaming_a_module: {why}: a rename started on a module bound by `from pkg import mod` (an ImportedName whose object is a "
